@@ -1,5 +1,5 @@
 (* C11 — shape of the generated cases and the two executable verdicts. No proofs. *)
-From C11 Require Import Model.
+From C11 Require Import Model ModelDoc.
 
 Definition bytes_eqb := list_eqb_N.
 
@@ -9,6 +9,8 @@ Definition term_eqb (a b : term) : bool :=
   | TStar, TStar => true
   | _, _ => false
   end.
+
+Definition token_eqb (a b : token) : bool := bytes_eqb (fst a) (fst b) && bytes_eqb (snd a) (snd b).
 
 Definition lits_eqb : list (list term) -> list (list term) -> bool := list_eqb (list_eqb term_eqb).
 
@@ -22,6 +24,9 @@ Definition ttype_eqb (a b : ttype) : bool :=
 (* the model instantiated with the tables dumped from Go *)
 Definition m_tokenize := tokenize go_is_letter go_is_number go_to_lower.
 Definition m_query := query_lits go_is_letter go_is_number go_to_lower.
+Definition m_lquery := lquery_lits go_is_letter go_is_number go_to_lower.
+Definition m_doc_metas := doc_metas go_is_letter go_is_number go_to_lower.
+Definition any_query (legacy : bool) := if legacy then m_lquery else m_query.
 Definition m_spec_queries := spec_queries go_is_letter go_is_number.
 Definition m_skipped := skipped.
 
@@ -32,15 +37,19 @@ Definition qobs := (list N * option (list (list term)) * bool)%type.
 
 Inductive case :=
 (* real tokenizer of type t, configuration c, per-field size fmax (0 = default) on value v emitted
-   the token values toks; qs = observations for the queries the harness derived from v *)
-| CFind (t : ttype) (c : icfg) (fmax : N) (v : list N) (toks : list (list N)) (qs : list qobs)
+   the token values toks; qs = observations for the queries the harness derived from v, parsed by
+   ParseSeqQL (legacy = false) or by the legacy ParseQuery (legacy = true) *)
+| CFind (legacy : bool) (t : ttype) (c : icfg) (fmax : N) (v : list N) (toks : list (list N)) (qs : list qobs)
 (* real ParseSeqQL on `f:<literal>` where the literal unquotes to s (wildcards = U+E000), field of
    type t, case sensitivity sens: the literals returned (None = error) *)
 | CQuery (t : ttype) (sens : bool) (s : list N) (lits : option (list (list term)))
 (* the real bulk indexer emitted `_exists_:title` for a present mapped field; the real parser (running
    case-insensitively) on `_exists_:<literal of title>` returned lits, and the real matcher's verdict
    over the document's _exists_ tokens *)
-| CExists (title : list N) (lits : option (list (list term))) (found : bool).
+| CExists (title : list N) (lits : option (list (list term))) (found : bool)
+(* the real bulk processor on a document (given as the tree insaneJSON decodes it to) with mapping m
+   and tokenizer configuration c returned these metas (token lists, parent first) *)
+| CDoc (m : mapping) (c : icfg) (doc : jval) (metas : list (list token)).
 
 Definition q_str (q : qobs) := fst (fst q).
 Definition q_lits (q : qobs) := snd (fst q).
@@ -49,10 +58,10 @@ Definition q_found (q : qobs) := snd q.
 (* model output = implementation output *)
 Definition case_agrees (c : case) : bool :=
   match c with
-  | CFind t c fmax v toks qs =>
+  | CFind legacy t c fmax v toks qs =>
       list_eqb bytes_eqb (m_tokenize t c fmax v) toks
       && forallb (fun q =>
-           option_eqb lits_eqb (m_query t (cs c) (q_str q)) (q_lits q)
+           option_eqb lits_eqb (any_query legacy t (cs c) (q_str q)) (q_lits q)
            && match q_lits q with
               | Some ls => Bool.eqb (query_finds ls toks) (q_found q)
               | None => negb (q_found q)
@@ -62,6 +71,7 @@ Definition case_agrees (c : case) : bool :=
       (* `_exists_` is a keyword field searched case-sensitively whatever the configuration *)
       option_eqb lits_eqb (m_query TyKeyword true title) lits
       && match lits with Some ls => implb (query_finds ls [title]) found | None => negb found end
+  | CDoc m c doc metas => list_eqb (list_eqb token_eqb) (m_doc_metas m c doc) metas
   end.
 
 (* implementation output satisfies the property (independent of the model's tokenizers):
@@ -72,7 +82,7 @@ Definition case_agrees (c : case) : bool :=
      queries (never indexed under a token the query side cannot produce). *)
 Definition case_spec_ok (c : case) : bool :=
   match c with
-  | CFind t c fmax v toks qs =>
+  | CFind _ t c fmax v toks qs =>
       list_eqb bytes_eqb (map q_str qs) (m_spec_queries t c fmax v)
       && forallb (fun q => match q_lits q with Some _ => q_found q | None => false end) qs
       && (if m_skipped t c fmax v then negb (nonempty toks) else true)
@@ -83,6 +93,18 @@ Definition case_spec_ok (c : case) : bool :=
   | CQuery _ _ _ _ => true
   | CExists title lits found =>
       found && match lits with Some ls => query_finds ls [title] | None => false end
+  | CDoc m c doc metas =>
+      (* every meta starts with _all_; every token indexed under a title has `_exists_:title` in the same
+         meta; every nested meta carries all tokens of the parent *)
+      match metas with
+      | [] => false
+      | parent :: nested =>
+        forallb (fun mt => match mt with (k, []) :: _ => bytes_eqb k K_ALL | _ => false end) metas
+        && forallb (fun mt => forallb (fun t : token =>
+                      bytes_eqb (fst t) K_ALL || bytes_eqb (fst t) K_EXISTS
+                      || existsb (token_eqb (K_EXISTS, fst t)) mt) mt) metas
+        && forallb (fun mt => forallb (fun t => existsb (token_eqb t) mt) (tl parent)) nested
+      end
   end.
 
 Definition diff_indices (l : list case) : list nat := bad_indices (fun c => negb (case_agrees c)) l.
